@@ -218,7 +218,7 @@ func (m *machine) awaitVisible(ps []PointJ) {
 	if len(want) == 0 {
 		return
 	}
-	missing := m.srv.AwaitSeries(db, want, 15*time.Second)
+	missing := m.srv.AwaitSeries(db, want, 60*time.Second) // (generous: index visibility after a recovery is a lag, not a loss, unless it never ends)
 	if len(missing) > 0 {
 		if !m.srv.Alive() {
 			return
